@@ -4,6 +4,8 @@ scikit-image's radon and iradon functions fully implemented in Torch.
 Reference: van der Walt, S., et al. (2014). scikit-image: image processing in Python. PeerJ, 2, e453.
 """
 
+import math
+
 import torch
 import torch.nn.functional as F
 
@@ -118,6 +120,15 @@ def iradon_torch(
     if output_size is None:
         output_size = N if circle else int(torch.floor(torch.sqrt(torch.tensor(N**2 / 2.0))))
 
+    if circle:
+        # as the reference (_sinogram_circle_to_square): embed the sinogram in the diagonal length,
+        # keeping the rotation centre, before choosing the FFT size
+        diagonal = int(math.ceil(math.sqrt(2) * N))
+        pad = diagonal - N
+        pad_before = diagonal // 2 - N // 2
+        sinograms = F.pad(sinograms, (pad_before, pad - pad_before))
+        N = diagonal
+
     # Padding for FFT
     padded_size = max(
         64, int(2 ** torch.ceil(torch.log2(torch.tensor(2 * N, dtype=torch.float32))))
@@ -156,7 +167,9 @@ def iradon_torch(
         val0 = torch.gather(filtered_i, 1, t0.view(B, -1)).view(B, output_size, output_size)
         val1 = torch.gather(filtered_i, 1, t1.view(B, -1)).view(B, output_size, output_size)
 
-        proj = (1 - w) * val0 + w * val1
+        # rays that leave the detector contribute nothing (np.interp(..., left=0, right=0))
+        valid = (t_idx >= 0) & (t_idx <= N - 1)
+        proj = ((1 - w) * val0 + w * val1) * valid
         recon += proj
 
     if circle:
